@@ -271,6 +271,44 @@ func opReadRequest(et uint8, b []byte) op {
 	}, fmt.Sprintf("R 1 %d %s", et, hx(b))}
 }
 
+type bodyEnveloper struct{ v *wv.V }
+
+func (e bodyEnveloper) MethodName() string              { return "bareMethod" }
+func (e bodyEnveloper) EnvelopeType() wire.EnvelopeType { return wire.Reply }
+func (e bodyEnveloper) Encode(w stream.Writer) error    { return e.v.WriteStream(w) }
+
+// opReadRespond: ReadRequest, then answer through the responder it returned (the streaming
+// responders borrow a StreamWriter from the pool and must give it back exactly once).
+func opReadRespond(et uint8, b []byte, reply *wv.V) op {
+	return op{"ReadRequest+WriteResponse", func() (res string) {
+		if p := safely(func() {
+			body := &structBody{}
+			w, err := binary.Default.ReadRequest(context.Background(), wire.EnvelopeType(int8(et)), &posReader{r: bytes.NewReader(b)}, body)
+			if err != nil {
+				res = "err"
+				return
+			}
+			var out bytes.Buffer
+			if err := w.WriteResponse(wire.Reply, &out, bodyEnveloper{reply}); err != nil {
+				res = "ok " + responderText(w) + " write-err"
+				return
+			}
+			res = fmt.Sprintf("ok %s %s", responderText(w), hx(out.Bytes()))
+		}); p != "" {
+			return "panic " + p
+		}
+		return
+	}, ""} // no model op: compared with its own sequential result only
+}
+
+// legacyEnvBytes is the unversioned envelope: name, type byte, sequence id, body.
+func legacyEnvBytes(name []byte, et uint8, seq uint32, body *wv.V) []byte {
+	b := []byte{byte(len(name) >> 24), byte(len(name) >> 16), byte(len(name) >> 8), byte(len(name))}
+	b = append(b, name...)
+	b = append(b, et, byte(seq>>24), byte(seq>>16), byte(seq>>8), byte(seq))
+	return body.Encode(b)
+}
+
 func opDecodeRequest(et uint8, b []byte) op {
 	return op{"DecodeRequest", func() (res string) {
 		if p := safely(func() {
@@ -536,6 +574,13 @@ func randomOps(r *rng.R, k int) []op {
 				ops = append(ops, opEnvEncode(name, et, seq, body))
 			} else {
 				b := envBytes(name, et, seq, body)
+				if r.Chance(1, 3) {
+					b = legacyEnvBytes(name, et, seq, body)
+				}
+				if r.Chance(1, 3) {
+					ops = append(ops, opReadRespond(et, b, wv.Gen(r, wv.TStruct, cfg, 0)))
+					continue
+				}
 				switch r.Intn(3) {
 				case 0:
 					ops = append(ops, opEnvDecode(b))
@@ -657,10 +702,19 @@ func sendRound(r *rng.R, k int, res *result) {
 			payloads[i] = append(payloads[i], r.Bytes(3000+r.Intn(70000))...)
 		}
 	}
+	// in half of the rounds large responses take the reader's slow path (threshold lowered through the
+	// hook; it is process-wide and rounds run one after the other)
+	if r.Bool() {
+		old := verifhook.SetFastPathFrameSize(2048)
+		defer verifhook.SetFastPathFrameSize(old)
+	}
 	var wg sync.WaitGroup
 	start := make(chan struct{})
 	var bad atomic.Int64
 	var mu sync.Mutex
+	// every response is kept and looked at again after all senders are done: a response a caller
+	// holds must not change under it when later traffic passes through the same client
+	kept := make([][][]byte, k)
 	for i := 0; i < k; i++ {
 		wg.Add(1)
 		go func(i int) {
@@ -668,6 +722,7 @@ func sendRound(r *rng.R, k int, res *result) {
 			<-start
 			for rep := 0; rep < 3; rep++ {
 				got, err := client.Send(payloads[i])
+				kept[i] = append(kept[i], got)
 				want := append([]byte("re:"), payloads[i]...)
 				if err != nil || !bytes.Equal(got, want) {
 					bad.Add(1)
@@ -693,6 +748,18 @@ func sendRound(r *rng.R, k int, res *result) {
 			Got: "no progress for 20s", Want: "every Send returns its own echo"})
 		mu.Unlock()
 		finish(res)
+	}
+	for i := range kept {
+		want := append([]byte("re:"), payloads[i]...)
+		for _, got := range kept[i] {
+			if got != nil && !bytes.Equal(got, want) {
+				bad.Add(1)
+				if len(res.Mismatches) < 20 {
+					res.Mismatches = append(res.Mismatches, mismatch{Kind: "C18 a response changed after Send returned it", Input: fmt.Sprintf("K=%d sender %d payload %s (%d bytes)", k, i, hx(payloads[i][:min(len(payloads[i]), 24)]), len(payloads[i])),
+						Got: hx(got[:min(len(got), 24)]), Want: hx(want[:min(len(want), 24)])})
+				}
+			}
+		}
 	}
 	c2sW.Close()
 	s2cR.Close()
@@ -832,7 +899,7 @@ func main() {
 				base := make([]string, k)
 				for i, o := range ops {
 					base[i] = o.run()
-					if !seenModel[o.model+"\x00"+base[i]] {
+					if o.model != "" && !seenModel[o.model+"\x00"+base[i]] {
 						seenModel[o.model+"\x00"+base[i]] = true
 						res.ModelOps = append(res.ModelOps, modelOp{Driver: "wire", Op: o.model, Impl: base[i], Kind: "C18 " + o.kind + " alone vs wire model"})
 					}
@@ -875,7 +942,7 @@ func main() {
 								mu.Lock()
 								if len(res.Mismatches) < 30 {
 									res.Mismatches = append(res.Mismatches, mismatch{Kind: "C18 concurrent result differs from sequential result (" + ops[i].kind + ")",
-										Input: fmt.Sprintf("GOMAXPROCS=%d K=%d op %d: %s", procs, k, i, ops[i].model), Got: got, Want: base[i]})
+										Input: fmt.Sprintf("GOMAXPROCS=%d K=%d op %d: %s %s", procs, k, i, ops[i].kind, ops[i].model), Got: got, Want: base[i]})
 								}
 								mu.Unlock()
 							}
